@@ -120,7 +120,21 @@ class ClsInherits(_Base):
         """
         self.depth = depth
 '''
-EXPECT = {"ClsInherits": [("depth", 2), ("width", 8)], "ClsInitLater": [("size", 4), ("ratio", 0.5), ("label", "l")], "ClsPlain": [("x", 5), ("y", "s")], "ClsAnn": [("n", 3), ("name", "b")], "fplain": [("p", None), ("q", 3)],
+# a parameter annotated with a class from a user package's sub-module that is itself called "typing"
+ENTRIES["fvec"] = '''import c19vec.typing
+
+
+def fvec(v: c19vec.typing.Vec = None, n: int = 2):
+    """
+    fvec summary
+
+    :param v: the v
+    :param n: the n
+    """
+    return n
+'''
+EXPECT_ANN = {"fann": {"p": "int", "q": "float"}, "fvec": {"v": "c19vec.typing.Vec", "n": "int"}, "ClsAnn": {"n": "int", "name": "str"}}
+EXPECT = {"fvec": [("v", None), ("n", 2)], "ClsInherits": [("depth", 2), ("width", 8)], "ClsInitLater": [("size", 4), ("ratio", 0.5), ("label", "l")], "ClsPlain": [("x", 5), ("y", "s")], "ClsAnn": [("n", 3), ("name", "b")], "fplain": [("p", None), ("q", 3)],
           "fann": [("p", 1), ("q", 0.5)]}
 TYPES = ("class", "function", "argparse")
 TEMPLATES = ("{name}Config", "Gen{name}")
@@ -167,6 +181,9 @@ def build_cases(tier):
         cases.append({"mapping": ["fplain"], "type": t, "tpl": TEMPLATES[0], "prepend": "import", "imports": "none", "via": "cli_existing"})
         cases.append({"mapping": ["fplain"], "type": t, "tpl": TEMPLATES[0], "prepend": "none", "imports": "one", "via": "cli_existing"})
         cases.append({"mapping": ["fplain"], "type": t, "tpl": TEMPLATES[0], "prepend": "import", "imports": "three", "via": "cli_existing"})
+        # the output spelled ~/generated.py (HOME points at the case directory)
+        cases.append({"mapping": ["fplain"], "type": t, "tpl": TEMPLATES[0], "prepend": "none", "imports": "none", "via": "cli_existing", "tilde": True})
+        cases.append({"mapping": ["fplain", "ClsPlain"], "type": t, "tpl": TEMPLATES[0], "prepend": "import", "imports": "one", "via": "cli", "tilde": True})
         cases.append({"mapping": ["fplain", "ClsPlain"], "type": t, "tpl": TEMPLATES[0], "prepend": "import", "imports": "one", "via": "cli"})
     return cases
 
@@ -220,6 +237,14 @@ class C19(core.Check):
                 "names": ", ".join("%r" % e for e in case["mapping"]), "objs": ", ".join(case["mapping"])} + "\n"
             with open(os.path.join(d, MODNAME + ".py"), "w") as f:
                 f.write(src)
+            if "fvec" in case["mapping"]:
+                os.makedirs(os.path.join(d, "c19vec"))
+                with open(os.path.join(d, "c19vec", "__init__.py"), "w") as f:
+                    f.write("")
+                with open(os.path.join(d, "c19vec", "typing.py"), "w") as f:
+                    f.write("class Vec(object):\n    pass\n")
+                for m in [k for k in sys.modules if k == "c19vec" or k.startswith("c19vec.")]:
+                    sys.modules.pop(m, None)
             imp_path = None
             prepend_text = PREPENDS[case["prepend"]]
             if case["imports"] == "alias_dotted":
@@ -248,6 +273,10 @@ class C19(core.Check):
                 with open(out, "wb") as f:
                     f.write(existing)
             exc = None
+            old_home = os.environ.get("HOME")
+            if case.get("tilde"):
+                os.environ["HOME"] = d
+                base["tilde"] = True
             with boot.quiet():
                 try:
                     if case["via"] == "api":
@@ -257,7 +286,7 @@ class C19(core.Check):
                         from doctrans.__main__ import main
 
                         argv = ["gen", "--name-tpl", case["tpl"], "--input-mapping", MODNAME + ".MAPPING", "--type", case["type"],
-                                "--output-filename", out]
+                                "--output-filename", "~/generated.py" if case.get("tilde") else out]
                         if prepend_text is not None:
                             argv += ["--prepend", prepend_text.replace("\n", "\\n")]
                         if imp_path:
@@ -267,6 +296,12 @@ class C19(core.Check):
                     if isinstance(e, KeyboardInterrupt):
                         raise
                     exc = e
+                finally:
+                    if case.get("tilde"):
+                        if old_home is None:
+                            os.environ.pop("HOME", None)
+                        else:
+                            os.environ["HOME"] = old_home
             sites = []
             if case["via"] == "cli_existing":
                 with open(out, "rb") as f:
@@ -298,6 +333,14 @@ class C19(core.Check):
             alls = [n for n in tree.body if isinstance(n, ast.Assign) and any(isinstance(t, ast.Name) and t.id == "__all__" for t in n.targets)]
             ok_all = len(alls) == 1 and _lit(alls[0].value) == want_names and tree.body and tree.body[-1] is alls[0]
             sites.append(site(ok_all, dict(base, field="__all__"), fail="__all__", got=[_lit(a.value) for a in alls]))
+            # annotations of generated functions are the source's (read from the syntax tree, no execution needed)
+            if case["type"] == "function":
+                for e, gname in zip(case["mapping"], want_names):
+                    fd = next((n for n in defs if n.name == gname and isinstance(n, ast.FunctionDef)), None)
+                    if fd is None or e not in EXPECT_ANN:
+                        continue
+                    got_ann = {a.arg: ast.unparse(a.annotation) for a in fd.args.args + fd.args.kwonlyargs if a.annotation is not None}
+                    sites.append(site(got_ann == EXPECT_ANN[e], dict(base, field="annotations", entry=e), fail="annotations", got=core.short(repr(got_ann), 80)))
             # prepend + imports: once, before the definitions
             first_def = next((i for i, n in enumerate(tree.body) if isinstance(n, (ast.ClassDef, ast.FunctionDef))), len(tree.body))
             head = [stmt_src(n) for n in tree.body[:first_def]]
@@ -319,6 +362,9 @@ class C19(core.Check):
                 import typing
 
                 ns.update({"Optional": typing.Optional, "loads": json.loads})
+                if "fvec" in case["mapping"]:  # the generated module names the user's package; gen is not asked to import it
+                    importlib.import_module("c19vec.typing")
+                    ns["c19vec"] = sys.modules["c19vec"]
                 exec(compile(tree, out, "exec"), ns)
             except Exception as e:
                 sites.append(site(False, dict(base, field="executes"), fail="exec_raise", exc=type(e).__name__, msg=core.short(str(e), 60)))
